@@ -5,6 +5,8 @@ import random
 from bcheck.common import pmap, result
 
 ALPHABET = (-3, -1, 0, 1, 2, 3)
+FRACTIONS = (-1.25, -0.75, 0.5, 1.0, 1.5)
+FRACTION_THRESHOLDS = ((0.5, 0.5), (1.0, 0.75), (0.25, 1.0))
 THRESHOLDS = ((1, 1), (2, 1), (2, 3), (3, 2), (3, 100), (4, 2), (1, 0))     # (minScore, breakSegmentThreshold)
 FID = 'src/alignment/segments_factory.py::_AlignmentSegmentBuilder.getSegments'
 
@@ -104,6 +106,16 @@ def cases(max_len, seed, extra_random):
         for scores in itertools.product(ALPHABET, repeat=ln):
             for ms, bst in THRESHOLDS:
                 yield (scores, (1 << ln) - 1, ms, bst)
+    # scores are real numbers (non-integer penalty multipliers): sequences over dyadic fractions, whose sums are exact in floating point
+    for ln in range(1, min(max_len, 5) + 1):
+        for scores in itertools.product(FRACTIONS, repeat=ln):
+            for ms, bst in FRACTION_THRESHOLDS:
+                yield (scores, (1 << ln) - 1, ms, bst)
+    rx = random.Random(seed * 17 + 3)
+    for _ in range(extra_random // 2):
+        ln = rx.randint(6, 24)
+        scores = tuple(rx.choice((-250.0, -250.0, -199.5, -0.75, 100.25, 400.5, 998.5, 1000.0, 1000.0)) for _ in range(ln))
+        yield (scores, rx.getrandbits(ln) | 1 | (1 << (ln - 1)), rx.choice((500, 1000, 1000.5)), rx.choice((100.25, 600, 1200, 1200.5)))
     rnd = random.Random(seed)
     for _ in range(extra_random):
         ln = rnd.randint(8, 30)
@@ -129,7 +141,7 @@ def bounded(repo, tier, seed):
     for v in viol:
         uniq.setdefault(v['key'], v)
     viol = list(uniq.values())
-    return result(ev, nt, f"all score sequences of length 0..{max_len} over {ALPHABET} x {len(THRESHOLDS)} (minScore, breakSegmentThreshold) pairs "
+    return result(ev, nt, f"all score sequences of length 0..{max_len} over {ALPHABET} x {len(THRESHOLDS)} (minScore, breakSegmentThreshold) pairs, all of length 1..{min(max_len, 5)} over the fractions {FRACTIONS} x {len(FRACTION_THRESHOLDS)} fractional pairs, random longer fractional ones "
                           f"hitting the threshold equalities, plus random longer sequences; non-trivial = at least one non-empty segment returned",
                   [dict(scores=list(c[0]), minScore=c[2], breakSegmentThreshold=c[3]) for c in allc[5000:5003]],
                   viol[:5], exhaustive=True, bounds=f"length <= {max_len}, alphabet {ALPHABET}")
